@@ -75,7 +75,7 @@ pub fn case_replayable(case: &Case) -> bool {
         Case::Input(_) | Case::Ops { .. } => true,
         // (cases of the feature-less build are decided by the second binary and cannot be
         // re-executed inside this one)
-        Case::Text(t) => !t.starts_with("vpair:unreplayable:") && !t.starts_with("direction:base:") && ["triple:", "pair:", "mpair:", "direction:", "arg:", "partsidx:", "vpair:", "conc:", "unk:", "hist:", "dirhist:likelysubtags:", "count:", "other:"].iter().any(|p| t.starts_with(p)),
+        Case::Text(t) => !t.starts_with("vpair:unreplayable:") && !t.starts_with("direction:base:") && ["triple:", "pair:", "mpair:", "direction:", "arg:", "partsidx:", "vpair:", "conc:", "unk:", "hist:", "dirhist:likelysubtags:", "count:", "countw:", "other:"].iter().any(|p| t.starts_with(p)),
     }
 }
 
@@ -123,7 +123,7 @@ pub fn replay_case(_ctx: &Ctx, sub: &'static str, case: &Case) -> Vec<(String, S
         #[cfg(feature = "likelysubtags")]
         Case::Text(t) if t.starts_with("conc:") => conc::replay(_ctx, sub, t, &coll),
         Case::Text(t) if t.starts_with("partsidx:") => values::replay_parts(t, &coll),
-        Case::Text(t) if t.starts_with("count:") => counts::replay(t, &coll),
+        Case::Text(t) if t.starts_with("count:") || t.starts_with("countw:") => counts::replay(t, &coll),
         Case::Text(t) if t.starts_with("other:") => values::replay_other(t, &coll),
         Case::Text(t) if t.starts_with("vpair:") => values::replay_vpair(t, &coll),
         Case::Text(t) if t.starts_with("arg:") => args::replay(t, &coll),
